@@ -30,7 +30,6 @@ type c11TrieResult struct {
 	Labels  []uint64 `json:"labels"`
 	Ranks   []uint64 `json:"ranks"`
 	Selects []uint64 `json:"selects"`
-	Units   [3]int   `json:"units"` // unitBitSize of labels, ranksBL, selectsBL (derived as in NewTrie)
 	Has     []int    `json:"has"`   // per word: 0 false, 1 true, 2 panic
 	Panic   string   `json:"panic,omitempty"`
 }
@@ -41,6 +40,17 @@ func c11Unhex(s string) string {
 		panic(err)
 	}
 	return string(b)
+}
+
+// a select sample list whose largest entry is 0 has unit size 0; Get on it indexes an empty buffer.
+// HasPrefix never reads it in that situation (the only node is the root), so the dump reads it as 0.
+func c11GetNoPanic(t *Trie, i int) (v uint64) {
+	defer func() {
+		if e := recover(); e != nil {
+			v = 0
+		}
+	}()
+	return t.selectsBL.Get(i)
 }
 
 func c11Has(t *Trie, w string) (r int) {
@@ -95,7 +105,7 @@ func c11TrieRun(c *c11TrieCase) (res c11TrieResult) {
 		res.Ranks = append(res.Ranks, t.ranksBL.Get(i))
 	}
 	for i := 0; i < (ones+63)/64; i++ {
-		res.Selects = append(res.Selects, t.selectsBL.Get(i))
+		res.Selects = append(res.Selects, c11GetNoPanic(t, i))
 	}
 	for _, w := range c.Words {
 		res.Has = append(res.Has, c11Has(t, c11Unhex(w)))
